@@ -4,7 +4,7 @@
    abstraction of Control.announce_ping described in Gossip.v; the obligation that a real
    router drops a passing announcement only when it already holds a route to its origin is
    checked by the harness at every delivery in real meshes. *)
-From Verif Require Import Prelude SwitchLabel Table Control ControlProofs Gossip GossipProofs.
+From Verif Require Import Prelude SwitchLabel Table TableSorted Control ControlProofs Gossip GossipProofs GossipRefine GossipNet.
 
 (* Reach: for every graph (any number of routers), every order of announcements and every
    delivery order: once nothing is in flight, every router holds a route to every router that
@@ -108,3 +108,74 @@ Theorem C09_not_added_has_route_or_full : forall cfg now t e0 t',
   (forall x, In x t -> e_dst x <> e_dst e0) /\ e_source e0 = src_gossip.
 Proof. exact not_added_has_route_or_full. Qed.
 Print Assumptions C09_not_added_has_route_or_full.
+
+(* ---------- one real delivery is one protocol step (GossipRefine.v) ----------
+   In an honest mesh (no lite links, announcements addressed to all routers, AddRoute reporting no
+   error) what Control.handle_announce does with an announcement on a sorted table is exactly one
+   of the protocol's moves: ignored; added — the router now knows the origin and forwards to
+   exactly the protocol's target set (link peers minus origin, sender and hop-list members); or
+   not added — it already knew the origin (the one exception: a new gossip destination whose
+   routing prefix is over its limit). *)
+Theorem C09_delivery_refines : forall cfg self now t links recv a id,
+  sorted t -> tpwf t ->
+  (forall l, In l links -> snd l = false) ->
+  a_dst_all a = true ->
+  (forall c, add_route cfg now t (ann_route self recv a) <> Err c) ->
+  let m := amsg id a recv self in
+  match handle_announce cfg self false false now t links recv a with
+  | None => True
+  | Some (t', true, fw) => knows t' (g_origin m) /\ (forall x, In x fw <-> is_target links m x)
+  | Some (t', false, fw) =>
+      t' = t /\ fw = [] /\
+      (knows t (g_origin m) \/
+       ((forall x, In x t -> e_dst x <> g_origin m) /\ e_source (ann_route self recv a) = src_gossip))
+  end.
+Proof. exact delivery_refines. Qed.
+Print Assumptions C09_delivery_refines.
+
+Theorem C09_looping_ignored : forall cfg self lite stub now t links recv a,
+  In self (map r_signer (a_chain a)) -> handle_announce cfg self lite stub now t links recv a = None.
+Proof. exact looping_ignored. Qed.
+Print Assumptions C09_looping_ignored.
+
+(* ---------- the mesh of handlers simulates the protocol (GossipNet.v) ----------
+   A mesh in which every router runs the handler model (Control.handle_announce on its own
+   routing table, Table.add_route inside; frames from itself ignored by the switch) steps exactly
+   like the flooding protocol; the well-formedness of honest states (valid records, outermost
+   signer = sender, distinct signers, sorted tables, "a router that never learned a route to o
+   holds at most the direct-peer route to o", "every learned pair is a table entry") is an
+   invariant.  Side conditions of a delivery: AddRoute reports no error and does not panic, and
+   the per-prefix limits are not reached; at most 98 routers. *)
+Theorem C09_mesh_step_is_protocol_step : forall nodes adj cfg lab lat,
+  (length nodes <= 98)%nat -> (forall a, adj a a = false) -> forall c c',
+  wf nodes c -> cstep nodes adj cfg lab lat c c' ->
+  gstep nodes adj (abs_state c) (abs_state c') /\ wf nodes c'.
+Proof.
+  intros nodes adj cfg lab lat Hn Hi c c' Hw Hs.
+  split; [exact (cstep_sim nodes adj cfg lab lat Hn Hi c c' Hw Hs)|exact (cstep_wf nodes adj cfg lab lat Hn Hi c c' Hw Hs)].
+Qed.
+Print Assumptions C09_mesh_step_is_protocol_step.
+
+(* Reach on the routers' TABLES: in every execution of a connected mesh, once nothing is in flight
+   every router holds a table entry for every router that has announced. *)
+Theorem C09_mesh_reach : forall nodes adj cfg lab lat,
+  (length nodes <= 98)%nat -> (forall a, adj a a = false) -> forall c o r,
+  creach nodes adj cfg lab lat c -> c_flight c = [] -> connected nodes adj ->
+  (exists id, In (id, o) (c_anns c)) -> In o nodes -> In r nodes -> r <> o ->
+  knows (c_tbl c r) o.
+Proof. exact mesh_reach. Qed.
+Print Assumptions C09_mesh_reach.
+
+Theorem C09_mesh_paths_loop_free : forall nodes adj cfg lab lat,
+  (length nodes <= 98)%nat -> NoDup nodes -> (forall a, adj a a = false) -> forall c m,
+  creach nodes adj cfg lab lat c -> In m (c_hist c) ->
+  NoDup (path_of m) /\ g_to m <> g_origin m /\ ~ In (g_to m) (g_hops m).
+Proof. exact mesh_paths_loop_free. Qed.
+Print Assumptions C09_mesh_paths_loop_free.
+
+Theorem C09_mesh_delivery_decreases : forall nodes adj cfg lab lat,
+  (length nodes <= 98)%nat -> NoDup nodes -> (forall a, adj a a = false) -> forall c c',
+  creach nodes adj cfg lab lat c -> cstep nodes adj cfg lab lat c c' -> c_anns c' = c_anns c ->
+  (mu nodes (abs_state c') < mu nodes (abs_state c))%nat.
+Proof. exact mesh_delivery_decreases. Qed.
+Print Assumptions C09_mesh_delivery_decreases.
